@@ -153,10 +153,7 @@ def load_performance_midi(
             if isinstance(msg, mido.MetaMessage):
                 if msg.type == "set_tempo":
                     mpq = msg.tempo
-                    if (
-                        tempo_changes[-1][1] != mpq
-                    ):  # only add new tempo if it's different from the last one
-                        tempo_changes.append((ttick, mpq))
+                    tempo_changes.append((ttick, mpq))
                     time_conversion_factor = mpq / (ppq * 10**6)
                 elif msg.type == "time_signature":
                     time_signatures.append(
@@ -292,6 +289,15 @@ def load_performance_midi(
             )
 
             pps.append(pp)
+
+    # tempo changes can come from any track: put them in order of tick
+    # and only keep a change if it's different from the previous one
+    tempo_changes.sort(key=lambda tc: tc[0])
+    tempo_changes = [
+        tc
+        for k, tc in enumerate(tempo_changes)
+        if k == 0 or tc[1] != tempo_changes[k - 1][1]
+    ]
 
     # adjust timing of events based on tempo changes
     for pp in pps:
